@@ -334,6 +334,9 @@ func (c *Ctx) runTLC(dir string, o TLCOpts) *TLCResult {
 	}
 	meta := filepath.Join(dir, "meta-"+o.Module+"-"+strconv.FormatInt(time.Now().UnixNano(), 36))
 	args := []string{"-XX:+UseParallelGC", fmt.Sprintf("-Xmx%dm", o.HeapMB), "-Xss64m"}
+	if o.Workers == 1 {
+		args = append(args, "-XX:ParallelGCThreads=2", "-XX:CICompilerCount=2")
+	}
 	if o.DFS {
 		args = append(args, "-Dtlc2.tool.queue.IStateQueue=StateDeque")
 	}
@@ -358,7 +361,11 @@ func (c *Ctx) runTLC(dir string, o TLCOpts) *TLCResult {
 	var buf bytes.Buffer
 	cmd.Stdout = &buf
 	cmd.Stderr = &buf
+	t0 := time.Now()
 	err := cmd.Run()
+	if os.Getenv("VERIF_DEBUG") != "" {
+		fmt.Printf("DEBUG tlc %s/%s in %s: %.1fs\n", o.Module, o.Cfg, filepath.Base(filepath.Dir(dir)), time.Since(t0).Seconds())
+	}
 	res := &TLCResult{Output: buf.String(), Records: map[string][]string{}}
 	os.RemoveAll(meta)
 	if ctx.Err() != nil {
@@ -538,7 +545,7 @@ func classifyFlatTrace(c *Ctx, module, cfg string, lines []map[string]any) []int
 		items[i] = l
 	}
 	writeNDJSON(filepath.Join(dir, "trace.ndjson"), items)
-	res := c.runTLC(dir, TLCOpts{Module: module, Cfg: cfg, Workers: 1, AllowError: true})
+	res := c.runTLC(dir, TLCOpts{Module: module, Cfg: cfg, Workers: 1, AllowError: true, HeapMB: 2000})
 	diam := -1
 	if d := res.Records["DIAM"]; len(d) > 0 {
 		diam, _ = strconv.Atoi(d[len(d)-1])
@@ -553,6 +560,66 @@ func classifyFlatTrace(c *Ctx, module, cfg string, lines []map[string]any) []int
 			fatalf("bad BAD record %q", b)
 		}
 		bad = append(bad, n-1)
+	}
+	sort.Ints(bad)
+	return bad
+}
+
+// classifySharded splits the lines over several TLC processes run in parallel (each shard is an
+// independent trace of the same trace specification) and returns the indices of the bad lines.
+func classifySharded(c *Ctx, module, cfg string, lines []map[string]any, shards int) []int {
+	if shards < 1 {
+		shards = 1
+	}
+	if shards > len(lines) {
+		shards = len(lines)
+	}
+	if shards <= 1 {
+		return classifyFlatTrace(c, module, cfg, lines)
+	}
+	type result struct {
+		bad []int
+		err any
+		st  [2]int64
+	}
+	per := (len(lines) + shards - 1) / shards
+	results := make([]result, shards)
+	done := make(chan int, shards)
+	for s := 0; s < shards; s++ {
+		go func(s int) {
+			defer func() {
+				if r := recover(); r != nil {
+					results[s].err = r
+				}
+				done <- s
+			}()
+			lo, hi := s*per, (s+1)*per
+			if hi > len(lines) {
+				hi = len(lines)
+			}
+			if lo >= hi {
+				return
+			}
+			sub := &Ctx{ID: c.ID, Tier: c.Tier, Seed: c.Seed, Work: filepath.Join(c.Work, fmt.Sprintf("shard%d", s)), Workers: 1}
+			must(os.MkdirAll(sub.Work, 0o755))
+			bad := classifyFlatTrace(sub, module, cfg, lines[lo:hi])
+			for _, b := range bad {
+				results[s].bad = append(results[s].bad, lo+b)
+			}
+			results[s].st = [2]int64{sub.States, sub.Transitions}
+		}(s)
+	}
+	for i := 0; i < shards; i++ {
+		<-done
+	}
+	var bad []int
+	for _, r := range results {
+		if r.err != nil {
+			panic(r.err)
+		}
+		bad = append(bad, r.bad...)
+		c.States += r.st[0]
+		c.Transitions += r.st[1]
 	}
 	sort.Ints(bad)
 	return bad
